@@ -204,6 +204,15 @@ func compareRPMVersionString(a, b string) int {
 			return nonDigitCmp
 		}
 
+		// Separators between an alphabetic and a numeric segment carry no
+		// meaning either (1.a1 == 1.a.1)
+		for i < len(a) && isSeparator(rune(a[i])) {
+			i++
+		}
+		for j < len(b) && isSeparator(rune(b[j])) {
+			j++
+		}
+
 		// Extract digit segments
 		iStart = i
 		for i < len(a) && unicode.IsDigit(rune(a[i])) {
